@@ -7,7 +7,7 @@ import * as X from '../expr.mjs'
 import * as M from '../tmodel.mjs'
 import { genFileSet, makeData, printFileSet, DATA_NAMES } from '../gen.mjs'
 import { compileMany, instantiate, allDiags, snap, LEVEL, withWarnings } from '../kit.mjs'
-import { diffSnap, showSnap, evalGroups } from '../rt.mjs'
+import { diffSnap, showSnap, evalGroups, DYN_SLOT_CHILD_SRC } from '../rt.mjs'
 import { Rng } from '../prng.mjs'
 import { valueOf } from '../mut.mjs'
 import { maskPaths } from './C06.mjs'
@@ -75,7 +75,7 @@ export function judge(ctx, c, res) {
   try { G = evalGroups(res.groups) } catch (e) { viol('generated code does not evaluate: ' + e.message, {}); return }
   const mk = () => makeData(new Rng(c.dataSeed), { small: true })
   const pc = (c.caseSeed & 1) === 1 // `<x-a>` is a real child component in every second case
-  const live = instantiate(ge, G, c.fs.main, mk(), { propComponents: pc })
+  const live = instantiate(ge, G, c.fs.main, mk(), { propComponents: pc, dynSlotChild: ctx.dynSlotChild })
   if (live.error) { report.count('creation_throws'); return }
   const B = live.tr.B || {}
   const offered = Object.keys(B)
@@ -87,7 +87,11 @@ export function judge(ctx, c, res) {
     if (an.hasInclude) viol(`field "${f}" is advertised although the template has an <include>`, { offered })
     else if (an.disabled.has(f)) viol(`field "${f}" is advertised by the binding map although it is used in a position the map cannot reach`, { offered, disabled: [...an.disabled], mapped: [...an.mapped] })
     else if (!an.mapped.has(f)) viol(`field "${f}" is advertised but not used in any mapped position`, { offered, mapped: [...an.mapped] })
-    for (let i = 0; i < B[f].length; i++) if (typeof B[f][i] !== 'function') viol(`B["${f}"] has a hole at ${i}`, { offered })
+    // (the runtime switches the map off for an instance that hosts a dynamic-slots component: the table is then never used,
+    //  and entries of content that was rendered zero times stay empty)
+    const mapOff = live.comp._$tmplInst && live.comp._$tmplInst.procGenWrapper && live.comp._$tmplInst.procGenWrapper.bindingMapDisabled === true
+    if (mapOff) report.count('binding_map_switched_off_by_runtime')
+    else for (let i = 0; i < B[f].length; i++) if (typeof B[f][i] !== 'function') viol(`B["${f}"] has a hole at ${i}`, { offered })
   }
   const eligible = [...an.mapped].filter((f) => !an.disabled.has(f) && !an.hasInclude)
   report.count('fields_offered', offered.length)
@@ -115,7 +119,7 @@ export function judge(ctx, c, res) {
       report.cell('update_path', viaTree ? 'tree' : 'binding-map', 'n')
       const base = mk()
       for (const [kk, vv] of Object.entries(current)) if (DATA_NAMES.includes(kk) || offered.includes(kk)) base[kk] = vv
-      const fresh = instantiate(ge, G, c.fs.main, base, { keepEvents: false, propComponents: pc })
+      const fresh = instantiate(ge, G, c.fs.main, base, { keepEvents: false, propComponents: pc, dynSlotChild: ctx.dynSlotChild })
       report.evals()
       if (fresh.error) { report.count('fresh_creation_throws'); return }
       const a = snap(ge, live.comp, live.tr, {})
@@ -150,6 +154,9 @@ export function makeCases(ctx, n, fixed = null) {
       const forms = [() => X.idx(X.id('m'), k()), () => X.idx(X.mem(X.id('m'), 'x'), k()), () => X.cond(k(), X.mem(X.id('m'), 'f'), X.mem(X.id('m'), 'g')), () => X.mem(X.idx(X.id('m'), k()), 'y')]
       main.children.push({ t: 'el', tag: 'p', attrs: [{ fam: r.pick(['bind', 'catch', 'mut-bind', 'capture-bind']), name: 'tap', value: M.ev(r.pick(forms)()) }, { fam: 'change', name: 'v', value: M.ev(r.pick(forms)()) }], children: [] })
     }
+    // content of a dynamic-slots child that renders its slot once per list item: every binding in it exists several
+    // times, so none of its fields may be served by the binding map
+    if (r.bool(0.25)) main.children.push({ t: 'el', tag: 'd-s', attrs: [{ fam: 'plain', name: 'list', value: M.ev(X.id('list')) }], children: [{ t: 'el', tag: 'q', attrs: [{ fam: 'plain', name: 'w', value: M.ev(X.id(r.pick(DATA_NAMES))) }], children: [{ t: 'text', v: M.mv('', X.id(r.pick(DATA_NAMES)), ':', X.id(r.pick(DATA_NAMES))) }] }] })
     let sources
     try { sources = printFileSet(fs_, { rng: r, between: true }) } catch (e) { if (/adjacent text/.test(e.message)) continue; throw e }
     cases.push({ id: cases.length, caseSeed, fs: fs_, sources, dataSeed: r.u32() })
@@ -157,7 +164,13 @@ export function makeCases(ctx, n, fixed = null) {
   return cases
 }
 
+function compileDynSlotChild(ctx) {
+  ctx.dynSlotChild = evalGroups(compileMany([{ id: 'child', files: [['child', DYN_SLOT_CHILD_SRC]], scripts: [] }]).get('child').groups)
+}
+
 export async function run(ctx) {
+  compileDynSlotChild(ctx)
+  X.sameOptions.signedZero = false // an updated instance is compared with a fresh one: the runtime's change detection is `!==`
   const { report, tier } = ctx
   const N = tier === 'thorough' ? 12000 : 1200
   const cases = makeCases(ctx, N)
@@ -175,6 +188,8 @@ export async function run(ctx) {
 }
 
 export async function replay(ctx) {
+  compileDynSlotChild(ctx)
+  X.sameOptions.signedZero = false
   const w = ctx.replay.witness
   for (const c of makeCases(ctx, 1, [w.caseSeed])) judge(ctx, c, compileMany([{ id: c.id, files: c.sources, scripts: Object.entries(c.fs.scripts) }]).get(c.id))
 }
